@@ -24,6 +24,7 @@ CONSTANTS
   Denied <- MCNoDenied
   Toks = {"none"}
   ResvTO = 30
+  QuotaDenied = {}
   MaxDepth = 6
 CONSTRAINT DepthBound
 INVARIANTS TypeOK C15_NothingAfterClose C15_NoOrphans C08_Bijection
